@@ -577,6 +577,9 @@ func init() {
 			if _, err := ref.HTMLBlockSelfTest(); err != nil {
 				return err
 			}
+			if _, err := ref.LinkGrammarSelfTest(); err != nil {
+				return err
+			}
 			return admSelfTest()
 		},
 		Run: func(c *Ctx) {
@@ -715,6 +718,7 @@ func init() {
 				c06HTMLBlockDriver(x, []string{open + name + term, "y", "", "z"})
 			})
 			c.Explore("empty-item-start", "a list marker alone on its line (8 marker spellings), optionally one blank line (6 spellings: empty, 1-3 and 6 spaces, a tab), then a text line indented 0-8 columns; at top level and in a block quote; LF, CRLF and CR", -1, 0, c06EmptyItemStart)
+			c.Inputs(spLinkTail, c.Pick(6, 7), c06LinkTailDriver)
 			c.Inputs(spRawTag, c.Pick(5, 7), c06RawDriver)
 			c.Inputs(spRawAttr, c.Pick(6, 7), c06RawDriver)
 			c.Inputs(spRawDecl, c.Pick(5, 6), c06RawDriver)
